@@ -328,11 +328,12 @@ pub fn def() -> PropDef {
     PropDef {
         id: "C01",
         level: "exploration",
-        rule: "wire_out / wire_in: the case index enumerates every pair of grid lengths {0,1,2,254,255,256,257,8191,8192,8193,65535,65536,131071,131072,131073} as a 2-frame message and every single grid length, for each emitting (8) resp. receiving (7) socket kind; further indices draw 1..5 frames with grid/random lengths and, rarely, 1-4 MiB, or (one in sixteen) 6..300 short frames; each case runs through a real socket under drawn write/read segmentation and back-pressure; hello: all 9 socket types x identity {none, 1, 255 bytes} x {accepting, connecting}, then every identity length 0..255 x 9 types x 2 sides (4608 cases, undisturbed), then the corner grid under drawn transport; every case is non-trivial (it judges one message or handshake); distinct = distinct (case, plan, schedule, transport)",
+        rule: "wire_out / wire_in: the case index enumerates every pair of grid lengths {0,1,2,254,255,256,257,8191,8192,8193,65535,65536,131071,131072,131073} as a 2-frame message and every single grid length, for each emitting (8) resp. receiving (7) socket kind; further indices draw 1..5 frames with grid/random lengths and, rarely, 1-4 MiB, or (one in sixteen) 6..300 short frames; each case runs through a real socket under drawn write/read segmentation and back-pressure; wire_out_backlog: the slow-subscriber world of C12 (messages of one, two and three frames published while a subscriber's connection buffer holds a backlog, then resumes): its stream must parse as whole published messages with MORE on every frame but the last; hello: all 9 socket types x identity {none, 1, 255 bytes} x {accepting, connecting}, then every identity length 0..255 x 9 types x 2 sides (4608 cases, undisturbed), then the corner grid under drawn transport; every case is non-trivial (it judges one message or handshake); distinct = distinct (case, plan, schedule, transport)",
         assumptions: &["input space enumerated over the boundary grid only, sampled beyond it", "the tap oracle is an independent RFC-23 decoder and encoder sharing no code with the library"],
         strata: vec![
             Stratum { name: "wire_out", quick: enumerated + 8_000, thorough: (enumerated + 300_000) * 5, exhaustive: (false, false), run: wire_out, what: "socket -> wire, byte-exact against the reference encoder" },
             Stratum { name: "wire_in", quick: enumerated_in + 8_000, thorough: (enumerated_in + 300_000) * 5, exhaustive: (false, false), run: wire_in, what: "reference-encoded wire -> recv" },
+            Stratum { name: "wire_out_backlog", quick: 12_000, thorough: 600_000, exhaustive: (false, false), run: super::c12::slow_world, what: "PUB/XPUB encoding into a connection buffer that still holds unflushed bytes (slow subscribers that stall and resume): what reaches them is a sequence of whole, well-formed published messages" },
             Stratum { name: "hello", quick: 54 + 4608 + 54 * 20, thorough: (54 * 2000) * 5, exhaustive: (true, true), run: hello, what: "greeting and READY of every socket type / identity option / side" },
         ],
     }
